@@ -8,7 +8,7 @@ VARIABLES c, done
 vars == <<c, done>>
 
 ChainCases == {[u |-> "chain", i |-> i, j |-> j, m |-> m] : i \in 1..Len(BinOps), j \in 1..Len(BinOps), m \in 1..Len(BinOps)}
-Cases == {[u |-> "shape", t |-> t] : t \in Shapes2}
+Cases == {[u |-> "shape", t |-> t] : t \in Shapes2 \cup Shapes3}
          \cup {[u |-> "typed", t |-> t] : t \in Typed2}
          \cup ChainCases
 
